@@ -7,7 +7,7 @@ from the emitted text and from the Table value, automaton and conflict payload a
 (PipelineJudge) against LR1.tla; builder and table-fill event traces are validated against the
 operational specs (PipelineTrace).
 """
-import json, os, random, concurrent.futures as cf
+import json, os, random, re, concurrent.futures as cf
 import common, grammar
 from common import ToolError, log
 
@@ -123,12 +123,44 @@ def build_cases(tier, seed, wd, run):
             if rng.random() < 0.3:
                 rng.shuffle(pres["ts"])
             cases.append({"G": G, "pres": pres, "src": grammar.render(G, pres), "origin": u})
+    cases += repo_cases()
     nrand = 150 if tier == "quick" else 2500
     for _ in range(nrand):
         G = random_grammar(rng)
         pres = grammar.present(G, rng, payload=None)
         cases.append({"G": G, "pres": pres, "src": grammar.render(G, pres), "origin": "random"})
     return cases, tlc_results
+
+
+def repo_grammar_files():
+    out = []
+    for root in ("/repo/kiki/src", "/repo/kiki_e2e_test/src"):
+        for d, _, fs in os.walk(root):
+            if "should_fail" in d:
+                continue
+            for f in sorted(fs):
+                if f.endswith(".kiki"):
+                    out.append(os.path.join(d, f))
+    return sorted(out)
+
+
+def repo_cases():
+    """The repository's own grammars. Their abstract grammar is the one kiki itself extracts (kv `grammar`)."""
+    files = repo_grammar_files()
+    srcs = [open(f).read() for f in files]
+    resps = common.kv("gen", [{"id": k, "src": s, "want": ["grammar"]} for k, s in enumerate(srcs)])
+    cases = []
+    for f, s, r in zip(files, srcs, resps):
+        if "grammar" not in r:
+            continue
+        kg = r["grammar"]
+        G = {"nts": kg["nts"], "ts": kg["ts"], "start": kg["start"],
+             "rules": [{"lhs": x["lhs"], "rhs": x["rhs"]} for x in kg["rules"]]}
+        pres = {"nts": kg["nts"], "ts": kg["ts"], "ttypes": dict(zip(kg["ts"], kg["ttypes"])),
+                "rules": {i: dict(struct=x["ctor"] == "struct", vname=x["vname"], style=x["style"], mask=x["mask"],
+                                  fnames=x["fnames"]) for i, x in enumerate(kg["rules"])}}
+        cases.append({"G": G, "pres": pres, "src": s, "origin": "repo:" + os.path.relpath(f, "/repo")})
+    return cases
 
 
 def reorder_rules(G, order):
@@ -158,6 +190,84 @@ def execute(tier, seed, run, wd):
     for idx, c in enumerate(cases):
         c["judge"] = verdicts.get(idx)
     return cases
+
+
+def trace_lines(case_id, c, r):
+    """ND-JSON lines of one grammar's builder + table-fill execution, in PipelineTrace.tla's vocabulary."""
+    G, pres = c["G"], c["pres"]
+    lines = [{"ev": "grammar", "id": case_id, "g": grammar.tla_grammar(dict(G, nts=pres["nts"], ts=pres["ts"]))}]
+    res = r["res"]
+    evs = r.get("events", [])
+    lines += [e for e in evs if e["ev"] in ("first", "pop", "target")]
+    if res["t"] == "ok":
+        m = r["machine"]
+    elif res["t"] == "err" and res["err"]["v"] == "TableConflict":
+        m = res["err"]["machine"]
+    else:
+        return None
+    lines.append({"ev": "machine", "m": m})
+    for e in evs:
+        if e["ev"] in ("scan", "set_action"):
+            lines.append(e)
+        elif e["ev"] == "fill_order":
+            lines += [{"ev": "fill", "state": s, "qt": q} for s, q in e["cells"]]
+        elif e["ev"] == "goto_fill_order":
+            lines += [{"ev": "gfill", "state": s, "nt": n} for s, n in e["cells"]]
+    if res["t"] == "ok":
+        lines.append({"ev": "table", "t": grammar.hook_table(r["table"])})
+    else:
+        lines.append({"ev": "conflict", "state": res["err"]["state"], "items": res["err"]["items"]})
+    return lines
+
+
+def validate_traces(cases, wd, run, shards=6, tag="trace"):
+    """Records builder/table-fill events of the given cases from the real code and has TLC validate them against
+    Builder.tla / TableFill.tla (PipelineTrace). Returns a list of (case, rejected event) for rejected traces."""
+    reqs = [{"id": k, "src": c["src"], "want": ["buildev", "fillev", "machine", "table"]} for k, c in enumerate(cases)]
+    resps = common.kv("gen", reqs, timeout=1200)
+    per_case = []
+    for k, (c, r) in enumerate(zip(cases, resps)):
+        ls = trace_lines(k, c, r)
+        if ls is not None:
+            per_case.append((c, ls))
+    shards = max(1, min(shards, len(per_case)))
+    rejected = []
+    todo = [per_case[s::shards] for s in range(shards)]
+
+    def one(args):
+        s, part = args
+        path = os.path.join(wd, "%s_%d.ndjson" % (tag, s))
+        with open(path, "w") as f:
+            for _, ls in part:
+                for ln in ls:
+                    f.write(json.dumps(ln) + "\n")
+        return common.tlc("PipelineTrace", env={"TRACE": path}, workers=1, timeout=3000, deque=True, xmx="3g")
+    with cf.ThreadPoolExecutor(max_workers=shards) as ex:
+        results = list(ex.map(one, list(enumerate(todo))))
+    nev = 0
+    for part, r in zip(todo, results):
+        run.add_tlc(r)
+        acc = r.tagged_raw("TRACE-ACCEPTED")
+        rej = r.tagged_raw("TRACE-REJECTED")
+        n = sum(len(ls) for _, ls in part)
+        nev += n
+        if acc:
+            run.traces += len(part)
+            continue
+        if not rej:
+            raise ToolError("PipelineTrace neither accepted nor rejected:\n" + (r.error or r.out[-2000:]))
+        # find the case containing the rejected line
+        m = re.match(r'^<<"TRACE-REJECTED", (\d+), "(.*)">>$', rej[0])
+        lineno = int(m.group(1))
+        acc_lines = 0
+        for c, ls in part:
+            if lineno <= acc_lines + len(ls):
+                rejected.append((c, ls[lineno - acc_lines - 1], r.error))
+                break
+            acc_lines += len(ls)
+            run.traces += 1
+    run.notes["trace_events_validated"] = run.notes.get("trace_events_validated", 0) + nev
+    return rejected
 
 
 def replay_case(c, why, kind):
@@ -223,21 +333,37 @@ def check(prop, tier, seed):
     run.assumptions = ["TLC 1.8.0 and the CommunityModules Json/IOUtils overrides are correct",
                        "the rendering grammar -> Kiki text is faithful (cross-checked: the grammar kiki extracts must equal the rendered one)",
                        "universes are bounded (Universe.tla); beyond them only seeded random grammars up to 6 nonterminals / 14 rules"]
+    # (B) step-level conformance: recorded builder / table-fill events against Builder.tla / TableFill.tla
+    rng = random.Random(seed + 17)
+    pool = [c for c in cases if c["rec"] is not None]
+    fixed = [c for c in pool if c["origin"] == "classics" or c["origin"].startswith("repo:")]
+    rest = [c for c in pool if c not in fixed]
+    sample = fixed + rng.sample(rest, min(len(rest), 400 if tier == "quick" else 4000))
+    rejected = validate_traces(sample, wd, run, shards=6 if tier == "quick" else 12)
+    for c, ev, err in rejected:
+        # diagnostic only (DESIGN.md section 7): the end states above decide the property
+        print("CONFORMANCE-DRIFT property=%s the real builder/table filler took a step Builder.tla/TableFill.tla do not allow: %s"
+              % (prop, json.dumps(ev)[:300]))
+    run.notes["trace_drift"] = len(rejected)
     design_level(prop, tier, run)
     return run.finish()
 
 
 def design_level(prop, tier, run):
     """The operational specifications, model-checked: merge-on-the-fly == LR(1) merged by core under every
-    schedule; ordered scan + unordered fill is deterministic and agrees with ConflictFree/TablesMatch."""
-    import os
-    if os.path.exists(os.path.join(common.SPEC, "MC_Builder.tla")):
-        u = "U1" if tier == "quick" else "U2"
-        r = common.tlc_ok("MC_Builder", env={"UNIVERSE": u}, workers=6, timeout=3000, coverage=True)
+    schedule (C17); ordered scan + unordered fill ends in a conflict iff not LALR(1), with a genuine witness, and in
+    the LALR(1) table whatever the fill order (C04, C11)."""
+    u = "U1" if tier == "quick" else "U2"
+    if prop == "C17":
+        models = [("MC_Builder", "MC_Builder", u), ("MC_Builder", "MC_BuilderFifo", u)]
+    else:
+        models = [("MC_TableFill", "MC_TableFill", u)]
+    for module, cfg, univ in models:
+        r = common.tlc_ok(module, cfg=cfg, env={"UNIVERSE": univ}, workers=6, timeout=6000, coverage=True)
         run.add_tlc(r)
-        run.notes["MC_Builder"] = {"universe": u, "distinct": r.distinct, "generated": r.generated, "depth": r.depth}
-    if os.path.exists(os.path.join(common.SPEC, "MC_TableFill.tla")):
-        u = "U1" if tier == "quick" else "U2"
-        r = common.tlc_ok("MC_TableFill", env={"UNIVERSE": u}, workers=6, timeout=3000, coverage=True)
-        run.add_tlc(r)
-        run.notes["MC_TableFill"] = {"universe": u, "distinct": r.distinct, "generated": r.generated, "depth": r.depth}
+        cov = r.coverage()
+        never = [a for a, (d, t) in cov.items() if t == 0 and a not in ("Init", "FifoInit")]
+        run.notes[cfg] = {"universe": univ, "distinct": r.distinct, "generated": r.generated, "depth": r.depth,
+                          "actions_never_taken": never}
+        if never:
+            raise ToolError("%s: action(s) never taken in the bounded model: %s" % (cfg, never))
